@@ -143,7 +143,7 @@ MISUSE = ['cross_st', 'cross_add', 'cross_mul_rvar', 'cross_add_rvar', 'foreign_
           'read_unsolved', 'read_failed', 'ambiguity_after_constraints', 'foreign_adapt', 'foreign_set_minmax',
           'foreign_amb_forall_explin', 'foreign_amb_forall_exppw', 'cross_concat', 'concat_dvar_rvar', 'foreign_adapt_ldr',
           'cross_maxof', 'cross_matmul_rvar', 'cross_st_cone', 'cross_st_piecewise', 'foreign_second_in_list', 'call_unsolved',
-          'cross_kldiv', 'cross_convex', 'foreign_scen_adapt', 'second_objective_special', 'foreign_set_forall_warm']
+          'cross_kldiv', 'cross_convex', 'foreign_scen_adapt', 'second_objective_special', 'foreign_set_forall_warm', 'cross_pscale', 'cross_expcone']
 
 
 def gen_case(seed, cfg):
@@ -270,7 +270,7 @@ def gen_misuse(rng, models, state, only=None, first=None):
         # kinds with narrow preconditions first, rarest first (a random cut keeps the head of the list from monopolising)
         rare = ['foreign_amb_forall', 'foreign_amb_forall_exppw', 'foreign_amb_forall_explin', 'foreign_prob', 'foreign_amb_objective',
                 'foreign_set_forall_warm', 'foreign_set_forall', 'foreign_adapt_ldr', 'foreign_expt', 'foreign_second_in_list', 'foreign_set_minmax',
-                'foreign_scen_adapt', 'second_objective_special', 'cross_kldiv', 'cross_convex', 'ambiguity_after_constraints', 'foreign_adapt', 'foreign_supp', 'cross_mul_rvar', 'cross_add_rvar',
+                'foreign_scen_adapt', 'second_objective_special', 'cross_pscale', 'cross_expcone', 'cross_kldiv', 'cross_convex', 'ambiguity_after_constraints', 'foreign_adapt', 'foreign_supp', 'cross_mul_rvar', 'cross_add_rvar',
                 'concat_dvar_rvar', 'cross_matmul_rvar', 'cross_maxof', 'second_objective', 'cross_st_piecewise']
         cut = rng.randrange(len(rare))
         rare = rare[cut:] + rare[:cut] if rng.random() < 0.5 else rare
@@ -343,6 +343,14 @@ def gen_misuse(rng, models, state, only=None, first=None):
                 if match:
                     x_, y_ = rng.choice(match)
                     return [dict(mk, op='call', obj=['v', pa + x_], meth='kldiv', args=[['v', pb + y_], 0.1], to='bad')]
+            if kind == 'cross_pscale' and a_dv and b_dv and A['kind'] in ('ro', 'dro') and B['kind'] in ('ro', 'dro'):
+                # perspective functions scale * exp(x / scale), scale * log(x / scale) with the SCALE taken from another model
+                return [dict(mk, op='expr', id='bad', e=['f', rng.choice(['pexp', 'plog']), ['sum', ['v', pa + rng.choice(a_dv)]],
+                                                         ['sum', ['v', pb + rng.choice(b_dv)]]])]
+            if kind == 'cross_expcone' and a_dv and b_dv and A['kind'] in ('ro', 'dro') and B['kind'] in ('ro', 'dro'):
+                own, foreign = ['sum', ['v', pa + rng.choice(a_dv)]], ['sum', ['v', pb + rng.choice(b_dv)]]
+                e_ = rng.choice([['expcone', own, foreign, ['c', 1.0]], ['expcone', own, own, foreign]])
+                return [dict(mk, op='expr', id='bad', e=e_)]
             if kind == 'cross_st_cone' and pa + 'm' in sa['built'] and b_dv and A['kind'] not in ('lp',) and \
                     B['kind'] in ('ro', 'socp', 'gcp'):
                 xb = ['v', pb + rng.choice([n_ for n_ in b_dv if n_ != 'y'] or b_dv)]        # y may be 2-D
